@@ -90,7 +90,8 @@ def build_request(r, i):
     return env
 
 
-def run_cases(cases):
+def run_cases(cases, sqlfile=None):
+    """sqlfile: the name server keeps its registrations in an sqlite database there (None: in memory)"""
     import Pyro5.api as P
     from Pyro5 import config, nameserver, callcontext, server
     from Pyro5.utils import httpgateway as G
@@ -141,7 +142,7 @@ def run_cases(cases):
                 contacted.append(objectId)
                 return super().get_metadata(objectId)
         d = P.Daemon(host="127.0.0.1", interface=P.expose(LoggingDaemonObject))
-        ns = nameserver.NameServer()
+        ns = nameserver.NameServer(nameserver.SqlStorage(sqlfile)) if sqlfile else nameserver.NameServer()
         d.register(ns, "Pyro.NameServer")
         uri_by_tag, current = {}, {}
         for nsname, tag in REGISTERED.items():
@@ -268,6 +269,11 @@ def run(ctx):
     if ctx.quick:
         cases = [c for i, c in enumerate(cases) if c["decide"] in ("redirect", "notfound", "index", "preflight") or (i + ctx.seed) % 3 == 0]
     traces = run_cases(cases)
+    # the same with a name server on the sqlite back-end, for the requests whose answer depends on what the name server lists
+    import os
+    sub = [c for i, c in enumerate(cases) if c["r"]["path"] == "index" or (c["r"]["path"] == "call" and i % ctx.pick(9, 3) == 0)]
+    traces += run_cases(sub, sqlfile=os.path.join(ctx.scratch, "c20_ns.sqlite"))
+    cases = cases + sub
     for c in cases:
         ctx.count(json.dumps(c["r"], sort_keys=True))
     for i in (0, len(traces) // 2, len(traces) - 1):
